@@ -14,6 +14,7 @@ CONSTANTS
   PreRO <- NoPreRO
   FrontKind = "plain"
   KeyShards <- NoKeyShards
+  FaultBudget = 0
 VIEW View
 ACTION_CONSTRAINT CoverAC
 POSTCONDITION CoverPost
